@@ -42,10 +42,10 @@ const (
 
 // step is one thing the scripted runner does.
 type step struct {
-	kind string // run | read | rm | put
-	dur  time.Duration
-	path []string // relative to the input root
-	n    *node    // put: what to create at path
+	kind string        // run | read | rm | put | wput
+	dur  time.Duration // run: how long; wput: how long the writing descriptor outlives the command
+	path []string      // relative to the input root
+	n    *node         // put: what to create at path
 }
 
 func (s step) String(thread int) string {
@@ -56,6 +56,8 @@ func (s step) String(thread int) string {
 		return fmt.Sprintf("step %d read %s", thread, hexs(strings.Join(s.path, "/")))
 	case "rm":
 		return fmt.Sprintf("step %d rm %s", thread, hexs(strings.Join(s.path, "/")))
+	case "wput":
+		return fmt.Sprintf("step %d wput %s %d %s", thread, hexs(strings.Join(s.path, "/")), s.dur/ms, s.n.String())
 	}
 	return fmt.Sprintf("step %d put %s %s", thread, hexs(strings.Join(s.path, "/")), s.n.String())
 }
@@ -63,6 +65,7 @@ func (s step) String(thread int) string {
 // action is one Execute request together with the script of its runner.
 type action struct {
 	thread     int
+	tag        int // what distinguishes the commands of otherwise equal actions (default: the thread)
 	timeout    time.Duration
 	doNotCache bool
 	upDirs     bool
@@ -82,9 +85,14 @@ type scenario struct {
 	maxSuspension time.Duration
 	batchSize     int
 	force         bool
-	faults        bool // the CAS rejects blobs containing PUTFAIL
+	faults        bool          // the CAS rejects blobs containing PUTFAIL
+	uploadDelay   time.Duration // maximumWritableFileUploadDelay of the executors
+	consumerDelay time.Duration // how long the receiver of execution state updates is busy with each update
+	barrier       bool          // the threads start their n-th action together
 	actions       []*action
 }
+
+const defaultUploadDelay = 10 * time.Second
 
 // inputLatency: how long the CAS takes to deliver the content of an input file.
 func inputLatency(id int) time.Duration { return time.Duration(id%4) * 10 * ms }
@@ -106,6 +114,15 @@ type runObs struct {
 	env            map[string]string
 	args           []string
 	wdSeen         string
+	lingering      int    // writing descriptors that outlived the command
+	lingerErr      string // a lingering writer could not finish its file
+	ctxErr         error  // why the runner's context was done
+}
+
+// updateObs: an execution state update, at the instant the receiver accepted it.
+type updateObs struct {
+	kind string // fetching | running | uploading | other
+	at   time.Duration
 }
 
 type actionObs struct {
@@ -116,11 +133,19 @@ type actionObs struct {
 	goneAfter  bool   // the build directory no longer exists right after Execute returned
 	acAtReturn bool   // the AC had an entry for the action when Execute returned
 	panic      string // non-empty: Execute panicked
+	updates    []updateObs
+	begin, end time.Duration // of the Execute call
+	getFailed  bool          // GetBuildDirectory returned an error
+	getCode    codes.Code
 }
 
 type event struct {
-	what string // get-start get-done close-start close-done clean
+	what string // get-start get-done get-failed close-start close-done clean
 	held int    // fully acquired and not yet closing build directories at that instant
+	// get-done, get-failed, close-start: the directory and the action it is for
+	name       string
+	doNotCache bool
+	digest16   string
 }
 
 // ---- the world: one worker, as cmd/bb_worker wires it --------------------------------
@@ -137,16 +162,19 @@ type world struct {
 	t0      time.Time
 	acViol  string
 	ids     map[string]int
+	bg      sync.WaitGroup // lingering writers still at work
 }
 
 type countingCreator struct {
 	base builder.BuildDirectoryCreator
 	w    *world
+	cur  *actionObs // the action the thread of this creator is executing
 }
 
 type countedDirectory struct {
 	builder.BuildDirectory
-	w *world
+	w    *world
+	name string
 }
 
 func (w *world) log(what string) {
@@ -160,19 +188,34 @@ func (c *countingCreator) GetBuildDirectory(ctx context.Context, d *digest.Diges
 	bd, p, err := c.base.GetBuildDirectory(ctx, d)
 	c.w.lock.Lock()
 	defer c.w.lock.Unlock()
+	var dnc bool
+	var d16 string
+	if c.cur != nil {
+		dnc = c.cur.a.doNotCache
+		if len(c.cur.digestKey) >= 16 {
+			d16 = c.cur.digestKey[:16]
+		}
+	}
 	if err != nil {
 		c.w.log("get-failed")
+		c.w.events[len(c.w.events)-1].doNotCache, c.w.events[len(c.w.events)-1].digest16 = dnc, d16
+		if c.cur != nil {
+			c.cur.getFailed, c.cur.getCode = true, status.Code(err)
+		}
 		return nil, nil, err
 	}
 	c.w.held++
 	c.w.log("get-done")
-	return &countedDirectory{BuildDirectory: bd, w: c.w}, p, nil
+	e := &c.w.events[len(c.w.events)-1]
+	e.name, e.doNotCache, e.digest16 = p.GetUNIXString(), dnc, d16
+	return &countedDirectory{BuildDirectory: bd, w: c.w, name: e.name}, p, nil
 }
 
 func (d *countedDirectory) Close() error {
 	d.w.lock.Lock()
 	d.w.held--
 	d.w.log("close-start")
+	d.w.events[len(d.w.events)-1].name = d.name
 	d.w.lock.Unlock()
 	err := d.BuildDirectory.Close()
 	d.w.lock.Lock()
@@ -183,6 +226,7 @@ func (d *countedDirectory) Close() error {
 
 type thread struct {
 	executor builder.BuildExecutor
+	creator  *countingCreator
 	sclock   *re_clock.SuspendableClock
 	runner   *fakeRunner
 }
@@ -235,12 +279,16 @@ func newWorld(sc *scenario) (*world, []*thread) {
 			builder.NewCleanBuildDirectoryCreator(builder.NewRootBuildDirectoryCreator(bd), idle),
 			&nextParallelActionID)}
 		r := &fakeRunner{w: w, sclock: sclock}
-		local := builder.NewLocalBuildExecutor(writer, creator, r, sclock, 10*time.Second, nil, 1<<20,
+		uploadDelay := sc.uploadDelay
+		if uploadDelay == 0 {
+			uploadDelay = defaultUploadDelay
+		}
+		local := builder.NewLocalBuildExecutor(writer, creator, r, sclock, uploadDelay, nil, 1<<20,
 			map[string]string{"PATH": "/bin", "WORKER": "1"}, sc.force)
 		executor := builder.NewCachingBuildExecutor(
 			builder.NewStorageFlushingBuildExecutor(local, flusher),
 			w.cas, w.ac, browserURL)
-		threads = append(threads, &thread{executor: executor, sclock: sclock, runner: r})
+		threads = append(threads, &thread{executor: executor, creator: creator, sclock: sclock, runner: r})
 	}
 	return w, threads
 }
@@ -275,8 +323,8 @@ func (w *world) request(a *action) (*remoteworker.DesiredState_Executing, *remot
 		format = remoteexecution.Command_TREE_AND_DIRECTORY
 	}
 	cmd := &remoteexecution.Command{
-		Arguments:             []string{"scripted", fmt.Sprint(a.thread)},
-		EnvironmentVariables:  []*remoteexecution.Command_EnvironmentVariable{{Name: "ACTION", Value: fmt.Sprint(a.thread)}},
+		Arguments:             []string{"scripted", fmt.Sprint(a.tag)},
+		EnvironmentVariables:  []*remoteexecution.Command_EnvironmentVariable{{Name: "ACTION", Value: fmt.Sprint(a.tag)}},
 		WorkingDirectory:      a.wd,
 		OutputPaths:           a.paths,
 		OutputDirectoryFormat: format,
@@ -413,14 +461,45 @@ func applyStep(root *node, s step) bool {
 		}
 		delete(parent.entries, name)
 		return true
-	case "put":
+	case "put", "wput":
 		if parent.entries[name] != nil {
 			return false
 		}
 		parent.entries[name] = s.n.clone()
+		if s.kind == "wput" {
+			parent.entries[name].lingerMs = int(s.dur / ms)
+		}
 		return true
 	}
 	return false
+}
+
+// lingeringWriter is a descriptor opened for writing on a file the command
+// created, through which only the first half of the contents was written so
+// far.  The rest is written and the descriptor closed `after` the command has
+// exited (page cache writeback, a child that was not reaped yet).
+type lingeringWriter struct {
+	leaf  virtual.Leaf
+	tail  []byte
+	off   uint64
+	after time.Duration
+}
+
+func (lw *lingeringWriter) finish() (problem string) {
+	defer func() {
+		if r := recover(); r != nil {
+			problem = fmt.Sprintf("lingering writer panicked: %v", r)
+		}
+	}()
+	defer lw.leaf.VirtualClose(virtual.ShareMaskWrite)
+	for off := 0; off < len(lw.tail); {
+		n, s := lw.leaf.VirtualWrite(context.Background(), lw.tail[off:], lw.off+uint64(off))
+		if s != virtual.StatusOK || n == 0 {
+			return fmt.Sprintf("lingering writer: VirtualWrite failed with status %v", s)
+		}
+		off += n
+	}
+	return ""
 }
 
 func (r *fakeRunner) Run(ctx context.Context, in *runner_pb.RunRequest, opts ...grpc.CallOption) (*runner_pb.RunResponse, error) {
@@ -430,7 +509,32 @@ func (r *fakeRunner) Run(ctx context.Context, in *runner_pb.RunRequest, opts ...
 	o.env = in.EnvironmentVariables
 	o.args = in.Arguments
 	o.wdSeen = in.WorkingDirectory
-	defer func() { o.end = time.Since(w.t0) }()
+	var writers []*lingeringWriter
+	defer func() {
+		o.end = time.Since(w.t0)
+		// descriptors the command left open: a killed command loses them at once,
+		// otherwise each is closed `after` the exit, having written the rest
+		for _, lw := range writers {
+			if o.killed || lw.after <= 0 {
+				if p := lw.finish(); p != "" && o.lingerErr == "" {
+					o.lingerErr = p
+				}
+				continue
+			}
+			o.lingering++
+			w.bg.Add(1)
+			go func(lw *lingeringWriter) {
+				defer w.bg.Done()
+				time.Sleep(lw.after)
+				p := lw.finish()
+				w.lock.Lock()
+				if p != "" && o.lingerErr == "" {
+					o.lingerErr = p
+				}
+				w.lock.Unlock()
+			}(lw)
+		}
+	}()
 
 	// what the build directory looks like on entry
 	parts := strings.Split(in.InputRootDirectory, "/")
@@ -474,6 +578,7 @@ func (r *fakeRunner) Run(ctx context.Context, in *runner_pb.RunRequest, opts ...
 	}
 	killed := func() (*runner_pb.RunResponse, error) {
 		o.killed = true
+		o.ctxErr = ctx.Err()
 		return nil, status.FromContextError(ctx.Err()).Err()
 	}
 	for _, s := range a.steps {
@@ -521,6 +626,33 @@ func (r *fakeRunner) Run(ctx context.Context, in *runner_pb.RunRequest, opts ...
 						wrapper.entries[s.path[len(s.path)-1]] = s.n
 						if err := populateVirtual(d, wrapper); err != nil {
 							return nil, status.Errorf(codes.Internal, "runner cannot create %v: %v", s.path, err)
+						}
+					}
+				}
+			}
+		case "wput":
+			if d, err := w.lookupDir(strings.Join(append(strings.Split(in.InputRootDirectory, "/"), s.path[:len(s.path)-1]...), "/")); err == nil {
+				if comp, ok := path.NewComponent(s.path[len(s.path)-1]); ok {
+					if _, err := d.LookupChild(comp); err != nil {
+						perm := virtual.PermissionsRead | virtual.PermissionsWrite
+						if s.n.exec {
+							perm |= virtual.PermissionsExecute
+						}
+						var attrs virtual.Attributes
+						leaf, _, _, st := d.VirtualOpenChild(context.Background(), comp, virtual.ShareMaskWrite, (&virtual.Attributes{}).SetPermissions(perm), nil, 0, &attrs)
+						if st != virtual.StatusOK {
+							return nil, status.Errorf(codes.Internal, "runner cannot create %v: status %v", s.path, st)
+						}
+						data := fileContent(s.n.content)
+						half := len(data) / 2
+						lw := &lingeringWriter{leaf: leaf, tail: data[half:], off: uint64(half), after: s.dur}
+						writers = append(writers, lw)
+						for off := 0; off < half; {
+							n, st := leaf.VirtualWrite(context.Background(), data[off:half], uint64(off))
+							if st != virtual.StatusOK || n == 0 {
+								return nil, status.Errorf(codes.Internal, "runner cannot write %v: status %v", s.path, st)
+							}
+							off += n
 						}
 					}
 				}
